@@ -21,8 +21,16 @@ pub assume_specification [f64::is_infinite] (a: f64) -> (r: bool) ensures r == a
 #[verifier::external_body] pub fn shim_f64_neg_infinity() -> (r: f64) ensures r.is_infinite_spec() { f64::NEG_INFINITY }
 #[verifier::external_body] pub fn shim_f64_nan() -> (r: f64) ensures r.is_nan_spec() { f64::NAN }
 pub open spec fn finite(n: f64) -> bool { !n.is_nan_spec() && !n.is_infinite_spec() }
+pub assume_specification [f64::is_finite] (a: f64) -> (r: bool) ensures r == finite(a);
+// the largest / smallest finite values: comparing against them says nothing about NaN (every comparison with NaN is false)
+#[verifier::external_body] pub fn shim_f64_max() -> (r: f64) ensures finite(r) { f64::MAX }
+#[verifier::external_body] pub fn shim_f64_min() -> (r: f64) ensures finite(r) { f64::MIN }
 
 //@fn base/src/model.rs array_node_to_formula_value
+//@rewrite* `f64::MAX` => `shim_f64_max()`
+//@rewrite* `f64::MIN` => `shim_f64_min()`
+//@rewrite* `f64::INFINITY` => `shim_f64_infinity()`
+//@rewrite* `f64::NEG_INFINITY` => `shim_f64_neg_infinity()`
 //@spec
     ensures r matches FormulaValue::Number(n) ==> finite(n)
 //@rewrite `-> FormulaValue {` => `-> (r: FormulaValue) {`
@@ -31,6 +39,10 @@ pub open spec fn finite(n: f64) -> bool { !n.is_nan_spec() && !n.is_infinite_spe
 //@end
 
 //@fn base/src/model.rs array_node_to_spill_value
+//@rewrite* `f64::MAX` => `shim_f64_max()`
+//@rewrite* `f64::MIN` => `shim_f64_min()`
+//@rewrite* `f64::INFINITY` => `shim_f64_infinity()`
+//@rewrite* `f64::NEG_INFINITY` => `shim_f64_neg_infinity()`
 //@spec
     ensures r matches SpillValue::Number(n) ==> finite(n)
 //@rewrite `-> SpillValue {` => `-> (r: SpillValue) {`
@@ -63,6 +75,8 @@ pub fn scalar_guard(value: &f64, cell_reference: CellReferenceIndex, cell: Cell)
 //@rewrite* `f64::INFINITY` => `shim_f64_infinity()`
 //@rewrite* `f64::NEG_INFINITY` => `shim_f64_neg_infinity()`
 //@rewrite* `f64::NAN` => `shim_f64_nan()`
+//@rewrite* `f64::MAX` => `shim_f64_max()`
+//@rewrite* `f64::MIN` => `shim_f64_min()`
 //@end
 
 
